@@ -2,6 +2,7 @@ package main
 
 import (
 	"fmt"
+	"math/rand"
 	"strings"
 	"sync"
 
@@ -13,71 +14,99 @@ func init() { register(&Prop{ID: "C19", Run: runC19, Gen: genC19}) }
 
 // one read-only query, parsed once, runnable many times.  `alt` (may be nil) is the same query issued
 // through the non-Matching wrapper of the API (KNearest, InBound), which must answer identically.
+// Both return the rendered answer and, for the queries that answer with a slice (`slice`), the very
+// slice the library returned (so that the caller can keep it, look at it again later, or hand it back
+// as the buffer of its next query).  `whole` marks an unfiltered in-bound query whose box covers the
+// bound of the tree (a listing of everything).
 type c19Query struct {
-	run, alt func(q *quadtree.Quadtree, buf []orb.Pointer) string
+	run, alt     func(q *quadtree.Quadtree, buf []orb.Pointer) (string, []orb.Pointer)
+	slice, whole bool
 }
 
-func parseQuery(r *tokReader) c19Query {
+func parseQuery(r *tokReader, tree orb.Bound) c19Query {
+	one := func(v orb.Pointer) (string, []orb.Pointer) {
+		if v == nil {
+			return "-", nil
+		}
+		return qid(v), nil
+	}
+	many := func(ps []orb.Pointer) (string, []orb.Pointer) { return qids(ps), ps }
 	switch op := r.next(); op {
 	case "f":
 		p := r.pt()
-		return c19Query{run: func(q *quadtree.Quadtree, _ []orb.Pointer) string {
-			v := q.Find(p)
-			if v == nil {
-				return "-"
-			}
-			return qid(v)
-		}, alt: func(q *quadtree.Quadtree, _ []orb.Pointer) string {
-			v := q.Matching(p, nil)
-			if v == nil {
-				return "-"
-			}
-			return qid(v)
+		return c19Query{run: func(q *quadtree.Quadtree, _ []orb.Pointer) (string, []orb.Pointer) {
+			return one(q.Find(p))
+		}, alt: func(q *quadtree.Quadtree, _ []orb.Pointer) (string, []orb.Pointer) {
+			return one(q.Matching(p, nil))
 		}}
 	case "m":
 		p := r.pt()
 		m, rr := r.int(), r.int()
-		return c19Query{run: func(q *quadtree.Quadtree, _ []orb.Pointer) string {
-			v := q.Matching(p, modFilter(m, rr))
-			if v == nil {
-				return "-"
-			}
-			return qid(v)
+		return c19Query{run: func(q *quadtree.Quadtree, _ []orb.Pointer) (string, []orb.Pointer) {
+			return one(q.Matching(p, modFilter(m, rr)))
 		}}
 	case "k":
 		p := r.pt()
 		k, m, rr := r.int(), r.int(), r.int()
 		md := r.next()
-		qq := c19Query{run: func(q *quadtree.Quadtree, buf []orb.Pointer) string {
+		qq := c19Query{slice: true, run: func(q *quadtree.Quadtree, buf []orb.Pointer) (string, []orb.Pointer) {
 			if md == "-" {
-				return qids(q.KNearestMatching(buf, p, k, modFilter(m, rr)))
+				return many(q.KNearestMatching(buf, p, k, modFilter(m, rr)))
 			}
-			return qids(q.KNearestMatching(buf, p, k, modFilter(m, rr), pf(md)))
+			return many(q.KNearestMatching(buf, p, k, modFilter(m, rr), pf(md)))
 		}}
 		if m == 1 { // no filter: the KNearest wrapper is the same query
-			qq.alt = func(q *quadtree.Quadtree, buf []orb.Pointer) string {
+			qq.alt = func(q *quadtree.Quadtree, buf []orb.Pointer) (string, []orb.Pointer) {
 				if md == "-" {
-					return qids(q.KNearest(buf, p, k))
+					return many(q.KNearest(buf, p, k))
 				}
-				return qids(q.KNearest(buf, p, k, pf(md)))
+				return many(q.KNearest(buf, p, k, pf(md)))
 			}
 		}
 		return qq
 	case "b":
 		b := orb.Bound{Min: r.pt(), Max: r.pt()}
 		m, rr := r.int(), r.int()
-		qq := c19Query{run: func(q *quadtree.Quadtree, buf []orb.Pointer) string {
-			return qids(q.InBoundMatching(buf, b, modFilter(m, rr)))
+		qq := c19Query{slice: true, run: func(q *quadtree.Quadtree, buf []orb.Pointer) (string, []orb.Pointer) {
+			return many(q.InBoundMatching(buf, b, modFilter(m, rr)))
 		}}
 		if m == 1 {
-			qq.alt = func(q *quadtree.Quadtree, buf []orb.Pointer) string {
-				return qids(q.InBound(buf, b))
+			qq.alt = func(q *quadtree.Quadtree, buf []orb.Pointer) (string, []orb.Pointer) {
+				return many(q.InBound(buf, b))
 			}
+			qq.whole = b.Min[0] <= tree.Min[0] && b.Min[1] <= tree.Min[1] && b.Max[0] >= tree.Max[0] && b.Max[1] >= tree.Max[1]
 		}
 		return qq
 	default:
 		panic("bad query op " + op)
 	}
+}
+
+// a result slice a goroutine received and did not hand back to the library afterwards: it belongs
+// to that goroutine, so it must still read `got` (what it read when it was returned) at any later time
+type c19Kept struct {
+	i   int // query index
+	res []orb.Pointer
+	got string
+}
+
+// c19Listings are the "give me everything" queries, all with a nil buffer: InBound over the tree's
+// bound (twice through the wrapper, once through InBoundMatching, once with a box beyond the bound)
+// and KNearest with k at least the number of stored pointers from the centre and two corners.
+func c19Listings(q *quadtree.Quadtree, bnd orb.Bound) string {
+	n := len(q.VerifContents())
+	big := orb.Bound{Min: orb.Point{bnd.Min[0] - 1, bnd.Min[1] - 1}, Max: orb.Point{bnd.Max[0] + 1, bnd.Max[1] + 1}}
+	out := []string{
+		"ib " + qids(q.InBound(nil, bnd)),
+		"ibm " + qids(q.InBoundMatching(nil, bnd, nil)),
+		"ib2 " + qids(q.InBound(nil, bnd)),
+		"ibBig " + qids(q.InBound(nil, big)),
+	}
+	for _, p := range []orb.Point{{(bnd.Min[0] + bnd.Max[0]) / 2, (bnd.Min[1] + bnd.Max[1]) / 2}, bnd.Min, bnd.Max} {
+		out = append(out, "kn "+qids(q.KNearest(nil, p, n)), "kn+ "+qids(q.KNearest(nil, p, n+7)),
+			"knm "+qids(q.KNearestMatching(nil, p, n+1, nil)))
+	}
+	return strings.Join(out, " / ")
 }
 
 // everything of the tree a query could disturb: the node structure (verif hook), the tree's bound
@@ -145,9 +174,13 @@ func runC19(op string, in []string) string {
 		m := r.int()
 		qs := make([]c19Query, m)
 		for i := range qs {
-			qs[i] = parseQuery(r)
+			qs[i] = parseQuery(r, bnd)
 		}
-		g, rounds, useBuf := r.int(), r.int(), r.int() == 1
+		// bufMode: 0 = every query with a nil buffer; 1 = the idiom `buf = q.Query(buf, …)` throughout
+		// (one buffer per goroutine, the previous result is always the next buffer); >= 2 = mixed, drawn
+		// per call from a per-goroutine generator seeded with bufMode: nil / the goroutine's PREVIOUS
+		// result slice resliced to [:0] / a fresh dirty buffer
+		g, rounds, bufMode := r.int(), r.int(), r.int()
 
 		// The tree the goroutines will query is NEVER queried before they start: the oracle answers
 		// come from a second tree built by the same history, so that state a query writes lazily
@@ -158,13 +191,16 @@ func runC19(op string, in []string) string {
 		oracleBefore := c19Dump(oracle)
 		seq := make([]string, m)
 		for i, f := range qs {
-			seq[i] = f.run(oracle, nil)
+			seq[i], _ = f.run(oracle, nil)
 		}
 		oracleAfter := c19Dump(oracle)
 
 		// concurrent phase: G goroutines, each running all queries `rounds` times from its own offset,
-		// alternating between the *Matching methods and their wrappers, and reading Bound()
+		// alternating between the *Matching methods and their wrappers, and reading Bound().
+		// Every goroutine KEEPS every result slice it receives, except those it hands back itself as
+		// the buffer of a later query; the kept ones are looked at again when all goroutines are done.
 		same, boundSame := true, true
+		var allKept [][]c19Kept
 		var mu sync.Mutex
 		var wg sync.WaitGroup
 		start := make(chan struct{})
@@ -172,10 +208,10 @@ func runC19(op string, in []string) string {
 			wg.Add(1)
 			go func(t int) {
 				defer wg.Done()
-				var buf []orb.Pointer
-				if useBuf {
-					buf = make([]orb.Pointer, 0, 16) // per-goroutine buffer
-				}
+				rng := rand.New(rand.NewSource(int64(bufMode)*1000003 + int64(t)))
+				var kept []c19Kept
+				var prev []orb.Pointer // the last result slice this goroutine received (the last entry of kept)
+				havePrev := false
 				ok, bok := true, true
 				<-start
 				for rd := 0; rd < rounds; rd++ {
@@ -185,8 +221,44 @@ func runC19(op string, in []string) string {
 						if qs[i].alt != nil && (t+j+rd)%2 == 1 {
 							f = qs[i].alt
 						}
-						if got := f(q, buf); got != seq[i] {
+						var buf []orb.Pointer
+						if qs[i].slice {
+							reuse := false
+							switch {
+							case bufMode == 0:
+							case bufMode == 1:
+								if havePrev {
+									reuse = true
+								} else {
+									buf = make([]orb.Pointer, 0, 16) // per-goroutine buffer
+								}
+							case qs[i].whole && rd == 0:
+								// in the first round every goroutine lists the whole tree with a nil
+								// buffer through the InBound wrapper
+								f = qs[i].alt
+							default:
+								switch x := rng.Intn(10); {
+								case x < 3:
+								case x < 8:
+									reuse = havePrev
+								default:
+									buf = dirtyBuf(rng.Intn(3), rng.Intn(24))
+								}
+							}
+							if reuse && prev != nil {
+								// real-world buffer reuse: the previous answer is given up (it is this
+								// goroutine's own memory, the library may overwrite it now)
+								buf = prev[:0]
+								kept = kept[:len(kept)-1]
+							}
+						}
+						got, res := f(q, buf)
+						if got != seq[i] {
 							ok = false
+						}
+						if qs[i].slice {
+							kept = append(kept, c19Kept{i, res, got})
+							prev, havePrev = res, true
 						}
 					}
 					if q.Bound() != bnd {
@@ -196,25 +268,45 @@ func runC19(op string, in []string) string {
 				mu.Lock()
 				same = same && ok
 				boundSame = boundSame && bok
+				allKept = append(allKept, kept)
 				mu.Unlock()
 			}(t)
 		}
 		close(start)
 		wg.Wait()
 		after := c19Dump(q)
+		// per-goroutine result buffers: an answer is still what it was when it was returned (keptStable)
+		// and what the query answers alone (keptOracle), now that every goroutine has finished
+		keptStable, keptOracle := true, true
+		for _, kept := range allKept {
+			for _, k := range kept {
+				now := qids(k.res)
+				if now != k.got {
+					keptStable = false
+				}
+				if now != seq[k.i] {
+					keptOracle = false
+				}
+			}
+		}
 		// and once more sequentially on the tree the goroutines used
 		late := true
 		for i, f := range qs {
-			if f.run(q, nil) != seq[i] {
+			if got, _ := f.run(q, nil); got != seq[i] {
 				late = false
 			}
-			if f.alt != nil && f.alt(q, nil) != seq[i] {
-				late = false
+			if f.alt != nil {
+				if got, _ := f.alt(q, nil); got != seq[i] {
+					late = false
+				}
 			}
 		}
+		// whole-tree listings of the shared tree against those of the identically built oracle tree
+		listSame := c19Listings(q, bnd) == c19Listings(oracle, bnd)
 		afterLate := c19Dump(q)
-		out := append(seq, fmt.Sprintf("F %s %s %s %s %s %s", b2s(same), b2s(before == after && after == afterLate), b2s(before == oracleBefore),
-			b2s(oracleBefore == oracleAfter), b2s(late), b2s(boundSame)))
+		oracleAfter2 := c19Dump(oracle)
+		out := append(seq, fmt.Sprintf("F %s %s %s %s %s %s %s %s %s", b2s(same), b2s(before == after && after == afterLate), b2s(before == oracleBefore),
+			b2s(oracleBefore == oracleAfter && oracleAfter == oracleAfter2), b2s(late), b2s(boundSame), b2s(keptStable), b2s(keptOracle), b2s(listSame)))
 		return strings.Join(out, " ; ")
 	})
 }
@@ -253,8 +345,28 @@ func genC19(c *Ctx) {
 				queries = append(queries, o)
 			}
 		}
+		// "give me everything": InBound over the tree's bound (or a box beyond it) and KNearest with
+		// k beyond the number of stored pointers, at a random position among the queries
+		ins := func(o string) {
+			at := r.Intn(len(queries) + 1)
+			queries = append(queries[:at], append([]string{o}, queries[at:]...)...)
+		}
+		if r.Intn(5) != 0 {
+			if r.Intn(4) == 0 {
+				ins("b c026000000000000 c028000000000000 4026000000000000 4039000000000000 1 0")
+			} else {
+				ins("b " + bound + " 1 0")
+			}
+		}
+		if r.Intn(2) == 0 {
+			ins(fmt.Sprintf("k %s %d 1 0 -", fpt(h.pt()), []int{85, 100, 300}[r.Intn(3)]))
+		}
 		g := []int{2, 2, 4, 8, 16, 32}[r.Intn(6)]
 		rounds := 1 + r.Intn(8)
-		c.Case("conc", fmt.Sprintf("%s %d %s %d %s %d %d %d", bound, len(build), strings.Join(build, " "), m, strings.Join(queries, " "), g, rounds, r.Intn(2)))
+		bufMode := r.Intn(6) // 0: nil buffers, 1: one reused buffer per goroutine, else mixed
+		if bufMode >= 2 {
+			bufMode = 2 + r.Intn(1000)
+		}
+		c.Case("conc", fmt.Sprintf("%s %d %s %d %s %d %d %d", bound, len(build), strings.Join(build, " "), len(queries), strings.Join(queries, " "), g, rounds, bufMode))
 	}
 }
